@@ -33,7 +33,8 @@ def call(task):
     signal.signal(signal.SIGALRM, _alarm)
     signal.alarm(int(timeout))
     try:
-        mod = __import__(modname)
+        import importlib
+        mod = importlib.import_module(modname)
         return ("ok", getattr(mod, fname)(_mods, *args))
     except _Timeout:
         return ("timeout", None)
